@@ -27,7 +27,7 @@ RULE = ('A case is one seeded write sequence (1..600 unique payloads over 1..200
         'consecutive attempts. Indices are capped at 48 per kind for long sequences (sampled evenly). '
         'evaluations = (sequence, fault plan) executions. A sub-case is non-trivial when at least one injected '
         'fault fired or a prune closed a handle that was later re-opened in append mode; distinct = distinct '
-        '(open/close/fault event trace) digests among those. 30% of the cases additionally split a seeded tagged BAM (1..14 cells, some reads without the tag; string values, values colliding after file-name clean-up, or integer values 0..n-1) '
+        '(open/close/fault event trace) digests among those. 30% of the cases additionally split a seeded tagged BAM (1..14 cells, some reads without the tag, some tagged reads without a reference position; string values, values colliding after file-name clean-up, or integer values 0..n-1) '
         'with bamSplitByTag for max_handles in {1, cells-1, cells, cells+1, random, 400}: every cell file must exist and hold exactly its reads in input order.')
 ASSUMPTIONS = [
     'open() failures are injected at the module seam handlelimiter.gzip.open / handlelimiter.open; write()/close() I/O errors are outside the statement and not injected',
@@ -39,7 +39,7 @@ COMPONENTS = {
     'stub': ['(fidelity cross-check of SimFS: 4% of the cases also run on real gzip files under a real RLIMIT_NOFILE in a forked child)', 'SimPool for the index step of bamSplitByTag (multiprocessing.Pool rebound in the child)', 'SimFS (handlelimiter.gzip / handlelimiter.open): in-memory files, fd budget, transient/permanent open faults', 'SimClock (handlelimiter.time)'],
 }
 ISOLATE = True      # every case runs in a forked child of the worker: no repository state travels between cases
-REQUIRED_PROBES = ['split_integer_tag_values', 'real_fd_limit_run', 'stale_file_present', 'split_colliding_tag_values', 'split_limit_below_cell_count', 'emfile_recovery', 'prune_closed_then_reopened', 'transient_fault_fired', 'permanent_fault_fired', 'write_raised_legitimately']
+REQUIRED_PROBES = ['split_unplaced_tagged_reads', 'split_integer_tag_values', 'real_fd_limit_run', 'stale_file_present', 'split_colliding_tag_values', 'split_limit_below_cell_count', 'emfile_recovery', 'prune_closed_then_reopened', 'transient_fault_fired', 'permanent_fault_fired', 'write_raised_legitimately']
 EXHAUSTIVE_NOTE = 'fault plans are enumerated per sampled write sequence (capped at 48 indices per kind); write sequences are sampled'
 ERRNOS = [errno.EMFILE, errno.ENFILE, errno.EIO]
 
@@ -125,6 +125,9 @@ def generate(seed, tier):
         collide = w.random() < 0.35
         limits = sorted({1, ncell, ncell + 1, max(1, ncell - 1), w.randint(1, ncell + 1), 400})
         case['split'] = {'cells': ncell, 'reads': reads, 'max_handles': limits, 'collide': collide}
+        if w.random() < 0.3:
+            # tagged reads without a reference position (they sit after the last placed read of a sorted BAM and belong to their cell's file too)
+            case['split']['unplaced'] = sorted(w.sample(range(nread), w.randint(1, max(1, nread // 3))))
         if not collide and w.random() < 0.35:
             case['split']['tagtype'] = 'int'      # integer-typed tag (cluster / plate number): values 0..ncell-1, file name = the number
     return case
@@ -496,21 +499,31 @@ def run_split(case, log, probes):
     with scratch() as d:
         bam = os.path.join(d, 'in.bam')
         header = pysam.AlignmentHeader.from_dict({'HD': {'VN': '1.6', 'SO': 'coordinate'}, 'SQ': [{'SN': 'c1', 'LN': 100000}]})
+        unplaced = set(sp.get('unplaced') or [])
+        order = [x for x in sp['reads'] if x[1] not in unplaced] + [x for x in sp['reads'] if x[1] in unplaced]
+        if unplaced:
+            probes['split_unplaced_tagged_reads'] = probes.get('split_unplaced_tagged_reads', 0) + 1
         with pysam.AlignmentFile(bam, 'wb', header=header) as o:
-            for cell, i, tagged in sp['reads']:
+            for cell, i, tagged in order:
                 r = pysam.AlignedSegment(header)
                 r.query_name = f'q{i}'
-                r.reference_id = 0
-                r.reference_start = 10 + i
                 r.query_sequence = 'ACGT'
-                r.cigartuples = [(0, 4)]
-                r.mapping_quality = 60
+                if i in unplaced:
+                    r.flag = 4
+                    r.reference_id = -1
+                    r.reference_start = -1
+                    r.mapping_quality = 0
+                else:
+                    r.reference_id = 0
+                    r.reference_start = 10 + i
+                    r.cigartuples = [(0, 4)]
+                    r.mapping_quality = 60
                 if tagged:
                     r.set_tag('SM', _tagvalue(sp, cell, i))
                 o.write(r)
         pysam.index(bam)
         want = {}
-        for cell, i, tagged in sp['reads']:
+        for cell, i, tagged in order:
             if tagged:
                 want.setdefault(str(cell) if sp.get('tagtype') == 'int' else f'LIB_{cell}', []).append(f'q{i}')     # the cleaned-up name; colliding raw values share the file
         if sp.get('tagtype') == 'int':
